@@ -511,7 +511,7 @@ class Client(Peer):
     def waiting_on_clock(self):
         if self.connected and self.pc < len(self.script):
             st = self.script[self.pc]
-            return st[0] in ('wait_time', 'sleep')
+            return st[0] in ('wait_time', 'sleep', 'wait_turns')
         return False
 
 
